@@ -2216,8 +2216,12 @@ where
 
 impl<S, T> Drop for Client<S, T> {
     fn drop(&mut self) {
-        let mut guard = self.client_server_map.lock();
-        guard.remove(&(self.process_id, self.secret_key));
+        // A cancel request connection carries the key of the client it wants to cancel:
+        // when it ends, that client's entry has to stay.
+        if !self.cancel_mode {
+            let mut guard = self.client_server_map.lock();
+            guard.remove(&(self.process_id, self.secret_key));
+        }
 
         // Whatever way the client task ends (including a panic while decoding a message),
         // the client must disappear from the statistics.
